@@ -5,7 +5,10 @@
 set -e
 export GOFLAGS=-mod=mod GOPROXY=off GOSUMDB=off GOTOOLCHAIN=local
 V=$(cd "$(dirname "$0")" && pwd)
-B=$V/.build
+B=${VERIF_BUILD:-$V/.build}
+R=${VERIF_REPO:-/repo}
+MAP=""
+[ "$R" != /repo ] && MAP="-map $R=/repo"
 mkdir -p $B/bin
 exec 9>$B/lock
 flock 9
@@ -13,12 +16,12 @@ cd $V/mc
 go build -o $B/bin/vxform ./cmd/vxform
 BRK=$(go env GOMODCACHE)/github.com/akramarenkov/breaker@v0.1.0
 rm -rf $B/gen.new
-$B/bin/vxform -out $B/gen.new -overlay $B/overlay.json.new -copy $BRK=$B/breaker \
-  /repo/join /repo/priority /repo/v2/join /repo/v2/join/unite /repo/v2/limit /repo/v2/priority /repo/v2/priority/simple
+$B/bin/vxform $MAP -out $B/gen.new -overlay $B/overlay.json.new -plain $B/overlay.plain.json -copy $BRK=$B/breaker \
+  $R/join $R/priority $R/v2/join $R/v2/join/unite $R/v2/limit $R/v2/priority $R/v2/priority/simple
 rm -rf $B/gen && mv $B/gen.new $B/gen && sed 's|/gen.new/|/gen/|' $B/overlay.json.new > $B/overlay.json && rm $B/overlay.json.new
 if [ "$1" = race ]; then
   go build -race -overlay $B/overlay.json -tags verif -o $B/bin/cqmc-race ./cmd/cqmc
 else
   go build -overlay $B/overlay.json -tags verif -o $B/bin/cqmc ./cmd/cqmc
-  go build -o $B/bin/cqpure ./cmd/cqpure
+  go build -overlay $B/overlay.plain.json -o $B/bin/cqpure ./cmd/cqpure
 fi
